@@ -72,14 +72,24 @@ def deadlock_violations(sim, include_client_blocked=True):
                                     "msg": "%s busy-waits (stack %r) while holding lock %s that %s needs; blocked: %r"
                                            % (spinner, st.get(owner, [])[:8], site, name, sim.final_blocked)})
         return out
+    by_name = {b[0]: b for b in sim.final_blocked}
     for (name, typ, site, timed, owner, owner_blocked) in sim.final_blocked:
         if typ in LOCKS and not timed and owner_blocked:
+            # follow the chain of lock holders to the thread everybody ultimately waits for
+            root = owner
+            hops = 0
+            while root in by_name and by_name[root][4] and by_name[root][4] != root and hops < 8 \
+                    and by_name[root][1] in LOCKS and not by_name[root][3]:
+                root = by_name[root][4]
+                hops += 1
             sig = "lock-held-forever|%s@%s" % (short_site(site), lib_chain(st.get(owner, [])))
+            if root != owner:
+                sig += "|root:" + lib_chain(st.get(root, []))
             if sig not in seen:
                 seen.add(sig)
                 out.append({"oracle": "lock-held-forever", "sig": sig,
-                            "msg": "%s waits forever for lock %s held by %s, which is itself blocked forever; blocked: %r; stacks: %r"
-                                   % (name, site, owner, sim.final_blocked, st)})
+                            "msg": "%s waits forever for lock %s held by %s, which is itself blocked forever (root of the chain: %s); blocked: %r; stacks: %r"
+                                   % (name, site, owner, root, sim.final_blocked, st)})
     if include_client_blocked and oc[0] in ("stuck", "horizon") and not out:
         for (name, typ, site, timed, owner, owner_blocked) in sim.final_blocked:
             if name.startswith("client") and not timed and typ != "_Joiner":
